@@ -1491,6 +1491,56 @@ def build_from_decls(tag: str, decls: list, ty):
     return c, ty2, ren
 
 
+def _eval_inheritance(case: dict):
+    """decode -> encode of a conforming document of a dataclass DERIVED from another dataclass gives the document back, for every
+    order in which base and derived class meet the process-wide converter."""
+    from typing import Optional
+    from pyopenapi_gen.core import cattrs_converter as cc
+    v, order, salt = case["variant"], case["order"], case["salt"]
+    base_meta = v % 2 == 0                       # base with / without key maps
+    ns: dict = {}
+
+    def meta(load: dict):
+        return type("Meta", (), {"key_transform_with_load": dict(load), "key_transform_with_dump": {b: a for a, b in load.items()}})
+    base_load = {"id": "id_", "displayName": "display_name"} if base_meta else {}
+    bf = [("id_" if base_meta else "id", int), ("display_name" if base_meta else "displayName", Optional[str], dataclasses.field(default=None))]
+    A = dataclasses.make_dataclass(f"InhBase{salt}", bf, kw_only=True)
+    if base_meta:
+        A.Meta = meta(base_load)
+    derived_load = dict(base_load, **{"accessLevel": "access_level", "class": "class_", "x-tag": "x_tag"})
+    df = [("access_level", int), ("class_", Optional[str], dataclasses.field(default=None)), ("x_tag", Optional[str], dataclasses.field(default=None))]
+    if v % 3 == 2:
+        df = df[:2]
+        derived_load.pop("x-tag")
+    B = dataclasses.make_dataclass(f"InhDerived{salt}", df, bases=(A,), kw_only=True)
+    B.Meta = meta(derived_load)
+    H = dataclasses.make_dataclass(f"InhHolder{salt}", [("first", A), ("second", B)], kw_only=True)
+    for c in (A, B, H):
+        c.__module__ = NS_NAME
+        setattr(_ns_module(), c.__name__, c)
+    inv = {b: a for a, b in derived_load.items()}
+    doc_a = {("id"): 1, "displayName": "n"}
+    doc_b = {"id": 7, "displayName": "dn", "accessLevel": 9, "class": "root"}
+    if "x-tag" in derived_load:
+        doc_b["x-tag"] = "t"
+    try:
+        if order == "base-first":
+            cc.unstructure_to_dict(cc.structure_from_dict(doc_a, A))
+            back = cc.unstructure_to_dict(cc.structure_from_dict(doc_b, B))
+        elif order == "derived-first":
+            back = cc.unstructure_to_dict(cc.structure_from_dict(doc_b, B))
+            back_a = cc.unstructure_to_dict(cc.structure_from_dict(doc_a, A))
+            if not py_tolerated(doc_a, back_a):
+                return {"class": "inheritance-roundtrip", "observed": back_a, "expected": doc_a}
+        else:
+            back = cc.unstructure_to_dict(cc.structure_from_dict({"first": doc_a, "second": doc_b}, H))["second"]
+    except Exception as e:  # noqa: BLE001
+        return {"class": "inheritance-roundtrip", "observed": f"{type(e).__name__}: {str(e)[:200]}", "expected": doc_b}
+    if not py_tolerated(doc_b, back) or any(k not in doc_b and val not in (None, [], {}) for k, val in back.items()):
+        return {"class": "inheritance-roundtrip", "observed": back, "expected": doc_b}
+    return None
+
+
 def py_tolerated(j, out) -> bool:
     """C03's tolerance: `out` is `j` up to key order; `out` may have extra keys holding None, [] or {}."""
     if isinstance(j, dict):
@@ -1552,6 +1602,8 @@ def _leaf_class(case_feats):
 
 def _evaluate(case, c, ty, ren, cc, Ser):
     prop = case["prop"]
+    if prop == "inheritance":
+        return _eval_inheritance(case)
     if prop == "same_name_twice":
         # two DIFFERENT families of dataclasses with identical module + qualified names, decoded one after the other in one process
         # (a model module that was re-generated and re-imported; classes built by a factory): nothing may be keyed by name
@@ -1901,6 +1953,11 @@ def oracle(seed: int = 16, scale: float = 1.0) -> dict:
         if top == "dict":
             case["twice"] = True
         cases.append(case)
+
+    # 6. dataclass INHERITANCE (a user extends a generated model): the derived class's own key maps apply, whatever was converted before
+    for ci in range(max(4, int(round(24 * scale)))):
+        cases.append({"prop": "inheritance", "decls": [], "ty": None, "variant": ci % 6, "order": ["base-first", "derived-first", "holder"][ci % 3],
+                      "salt": rng.randrange(10**6)})
 
     failures = []
     evaluations = 0
